@@ -240,6 +240,54 @@ impl Compiler {
         Ok(())
     }
 
+    /// Emit a loop that drains the iterator in `iter_reg` into a new array in `rest_arr`
+    /// (the `...rest` element of an array pattern; works for every kind of iterator)
+    fn emit_collect_iterator_rest(
+        &mut self,
+        rest_arr: Register,
+        iter_reg: Register,
+        result_reg: Register,
+        elem_value: Register,
+    ) -> Result<(), JsError> {
+        self.builder.emit(Op::CreateArray {
+            dst: rest_arr,
+            start: 0,
+            count: 0,
+        });
+        let single_arr = self.builder.alloc_register()?;
+
+        let loop_start = self.builder.current_offset();
+        self.builder.emit(Op::IteratorNext {
+            dst: result_reg,
+            iterator: iter_reg,
+        });
+        let done_jump = self.builder.emit(Op::IteratorDone {
+            result: result_reg,
+            target: 0,
+        });
+        self.builder.emit(Op::IteratorValue {
+            dst: elem_value,
+            result: result_reg,
+        });
+        // Append the value: wrap it in a one-element array and spread that onto the rest array
+        self.builder.emit(Op::CreateArray {
+            dst: single_arr,
+            start: elem_value,
+            count: 1,
+        });
+        self.builder.emit(Op::SpreadArray {
+            dst: rest_arr,
+            src: single_arr,
+        });
+        self.builder.emit_jump_to(loop_start);
+        self.builder.patch_jump(super::JumpPlaceholder {
+            instruction_index: done_jump,
+        });
+
+        self.builder.free_register(single_arr);
+        Ok(())
+    }
+
     /// Compile array pattern binding
     fn compile_array_pattern_binding(
         &mut self,
@@ -261,17 +309,14 @@ impl Compiler {
         // Track if iterator is exhausted (by rest pattern)
         let mut iterator_exhausted = false;
 
-        for (i, elem) in arr_pat.elements.iter().enumerate() {
+        for elem in arr_pat.elements.iter() {
             if let Some(pattern) = elem {
                 // Check for rest pattern
                 if let Pattern::Rest(rest) = pattern {
                     // Collect remaining elements into an array
                     // This exhausts the iterator, so no need to close it
                     let rest_arr = self.builder.alloc_register()?;
-                    self.builder.emit(Op::CreateRestArray {
-                        dst: rest_arr,
-                        start_index: i as u8,
-                    });
+                    self.emit_collect_iterator_rest(rest_arr, iter_reg, result_reg, elem_value)?;
                     self.compile_pattern_binding(&rest.argument, rest_arr, mutable, is_var)?;
                     self.builder.free_register(rest_arr);
                     iterator_exhausted = true;
@@ -519,14 +564,11 @@ impl Compiler {
         // Track if iterator is exhausted (by rest pattern)
         let mut iterator_exhausted = false;
 
-        for (i, elem) in arr_pat.elements.iter().enumerate() {
+        for elem in arr_pat.elements.iter() {
             if let Some(pattern) = elem {
                 if let Pattern::Rest(rest) = pattern {
                     let rest_arr = self.builder.alloc_register()?;
-                    self.builder.emit(Op::CreateRestArray {
-                        dst: rest_arr,
-                        start_index: i as u8,
-                    });
+                    self.emit_collect_iterator_rest(rest_arr, iter_reg, result_reg, elem_value)?;
                     self.compile_pattern_assignment(&rest.argument, rest_arr)?;
                     self.builder.free_register(rest_arr);
                     iterator_exhausted = true;
